@@ -216,6 +216,7 @@ func runCheck(id, tier string) int {
 			return ""
 		}
 		m.Property, m.Assertion, m.Job, m.Files = id, aid, j.Name, c.Files
+		m.RaceConfirm = j.RaceConfirm
 		cexN++
 		p := filepath.Join(evidenceBase(), "evidence", "replay", fmt.Sprintf("%s-%d.json", id, cexN))
 		b, _ := json.MarshalIndent(m, "", " ")
